@@ -12,7 +12,7 @@ from sa.regex_automata import Lang, inclusion, Unsupported
 EXPL = ('Decides: (a) acceptance -- the tool\'s banner pattern is assembled from the class constants by the constant evaluator, turned into an automaton from its regex syntax tree (re._parser) and the inclusion '
         'L(^SSH-\\d\\.\\d+-[!-~]*( +[ -~]*)?$) <= L(RX_BANNER) and L(^SSH-\\d\\.\\d+$) <= L(RX_BANNER) is decided over printable ASCII on the product automaton (a shortest rejected banner is printed otherwise): a statement about all strings of the grammar; '
         'the pattern is anchored, has the four groups parse() indexes, and the protocol pattern has two digit groups; (b) parse() matches the SANITISED string while the validity flag is computed on the RAW one, both helpers use the same filter (evaluated at 31, 32, 126, 127), '
-        'rejected characters become "?", and the non-conformance warning is printed iff the flag is false; (c) in the receive loop a line becomes header text only if it did not parse as a banner, the first parsed banner is returned, empty lines are skipped, decoding is total; '
+        'rejected characters become "?", and the non-conformance warning is printed iff the flag is false; (c) SSH_Socket.get_banner is interpreted on scripted peers (TCP segments, split and blank lines, unterminated tails, close / timeout): complete lines are tried in order and unmodified, the first that parses is returned at once and is not header text, the lines before it are the header, nothing behind it is consumed; decoding is total; '
         '(d) every documented family head (dropbear_, OpenSSH_/-, libssh-/_, RomSShell_, mpSSH_, Cisco-, tinyssh_, PuTTY_Release_, lancom) is served by a ^-anchored constant pattern (prefix automaton accepts the head) whose group 1 is the version handed to the constructor with that family\'s product; for the numeric families group 1 includes every dotted decimal version (automata inclusion); literal heads are pairwise prefix-disjoint. '
         'Not decided: that the captured parts equal the grammar\'s parts for every string, and parse/render round trips.')
 
